@@ -38,6 +38,9 @@ if fo and fo[0].startswith('bounded stand-in'):
     by='bounded stand-in on real code (proof unaffected)'; what=(cex[0][len('counterexample on the real code: '):] if cex else fo[0])[:170]
 elif fo and fo[0].startswith('kani harness'):
     by='Kani harness'; what=fo[0][:170]
+elif [l for l in t.split('\n') if l.startswith('obligation failed in a restructured function: ')]:
+    ro=[l[len('obligation failed in a restructured function: '):] for l in t.split('\n') if l.startswith('obligation failed in a restructured function: ')]
+    by='clause fails in a restructured function' + (' + witness on real code' if cex else ', no concrete violation found'); what=ro[0][:170]
 elif so:
     by='supporting contract fails' + (' + witness on real code' if cex else ', no concrete violation found'); what=so[0][:170]
 elif fo:
